@@ -230,3 +230,30 @@ def po_prefix(S):
     S.check("input-frames-unchanged-by-the-run", fa0 == fa1)
     ra2, _, _ = fx.run_history(ticks_a, vol)
     S.check("re-run-reproduces-the-result", ra2 == ra)
+
+
+@proof("C02", "squeeth/TWAP-of-bar-k-does-not-depend-on-rows-after-k(bounded)", strength="B", config={"bounded_samples": {"quick": 120, "thorough": 2000}})
+def po_twap_no_lookahead(S):
+    """bounded stand-in (pandas time slicing is outside the interpreter): two price frames that agree on rows 0..k and differ afterwards
+    give the same TWAP at bar k for both tokens — on one-minute grids, on grids coarser than the seven-minute window (a single row in the
+    window) and at the very first bar"""
+    from demeter import MarketStatus, MarketInfo, MarketTypeEnum
+    from demeter.squeeth.market import SqueethMarket
+    from demeter.squeeth._typing import WETH, oSQTH
+    n = S.int("rows", 2, 12)
+    k = S.int("now_index", 0, 10)
+    S.assume(k < n - 1)
+    step = [1, 1, 5, 10, 60][S.int("grid", 0, 4)]
+    t = pd.date_range(T0, periods=n, freq=f"{step}min")
+    eth = [S.dec(f"eth{i}", 500, 5000) for i in range(12)][:n]
+    osq = [S.dec(f"osq{i}", Decimal("0.01"), 1) for i in range(12)][:n]
+    eth2 = eth[:k + 1] + [S.dec(f"eth_alt{i}", 500, 5000) for i in range(12)][k + 1:n]
+    osq2 = osq[:k + 1] + [S.dec(f"osq_alt{i}", Decimal("0.01"), 1) for i in range(12)][k + 1:n]
+    out = []
+    for e, o in ((eth, osq), (eth2, osq2)):
+        m = SqueethMarket(MarketInfo("sqth", MarketTypeEnum.squeeth), None)
+        m.data = pd.DataFrame({"norm_factor": [Decimal("0.5")] * n, "WETH": e, "OSQTH": o}, index=t)
+        m.set_market_status(MarketStatus(t[k]), None)
+        out.append((m.get_twap_price(WETH), m.get_twap_price(oSQTH)))
+    S.check("TWAP(WETH)-at-bar-k-same-for-both-futures", out[0][0] == out[1][0])
+    S.check("TWAP(oSQTH)-at-bar-k-same-for-both-futures", out[0][1] == out[1][1])
